@@ -50,6 +50,7 @@ macro_rules! s1 {
         #[kani::unwind(14)]
         #[kani::stub(std::hash::RandomState::new, random_state_new)]
         #[kani::stub(std::intrinsics::catch_unwind, catch_unwind_stub)]
+        #[kani::stub(<std::str::Chars as std::iter::Iterator>::count, chars_count_model)]
         fn $name() {
             let shape = SHAPES[$shape];
             let len: u32 = $len;
